@@ -264,6 +264,119 @@ def split_tuple_assignments(tree):
     return count
 
 
+def unroll_guarded_unpacking(tree):
+    """Normalisation: ``a, b = [f(x) for x in S]`` inside the branch of a test
+    ``len(S) == 2`` is read as ``a = f(S[0]); b = f(S[1])`` - the comprehension
+    has exactly as many elements as the guard says."""
+    import copy
+    count = 0
+
+    class Sub(ast.NodeTransformer):
+        def __init__(self, name, rep):
+            self.name, self.rep = name, rep
+
+        def visit_Name(self, node):
+            if node.id == self.name and isinstance(node.ctx, ast.Load):
+                return ast.copy_location(copy.deepcopy(self.rep), node)
+            return node
+
+    def conj(test):
+        if isinstance(test, ast.BoolOp) and isinstance(test.op, ast.And):
+            out = []
+            for v in test.values:
+                out.extend(conj(v))
+            return out
+        return [test]
+
+    def visit(block, facts):
+        new = []
+        for st in block:
+            if isinstance(st, ast.Assign) and len(st.targets) == 1 \
+                    and isinstance(st.targets[0], (ast.Tuple, ast.List)) \
+                    and all(isinstance(e, ast.Name) for e in st.targets[0].elts) \
+                    and isinstance(st.value, ast.ListComp) and len(st.value.generators) == 1:
+                g = st.value.generators[0]
+                n = len(st.targets[0].elts)
+                src = ast.unparse(g.iter)
+                known = any(isinstance(f, ast.Compare) and len(f.ops) == 1 and isinstance(f.ops[0], ast.Eq)
+                            and ast.unparse(f.left) == 'len(%s)' % src
+                            and isinstance(f.comparators[0], ast.Constant) and f.comparators[0].value == n
+                            for f in facts)
+                pure_src = not any(isinstance(x, ast.Call) for x in ast.walk(g.iter))
+                if known and pure_src and not g.ifs and not g.is_async and isinstance(g.target, ast.Name) \
+                        and not any(isinstance(x, (ast.ListComp, ast.GeneratorExp, ast.Lambda))
+                                    for x in ast.walk(st.value.elt)):
+                    nonlocal count
+                    for i, t in enumerate(st.targets[0].elts):
+                        item = ast.Subscript(value=copy.deepcopy(g.iter), slice=ast.Constant(value=i), ctx=ast.Load())
+                        val = Sub(g.target.id, item).visit(copy.deepcopy(st.value.elt))
+                        new.append(ast.copy_location(ast.Assign(targets=[t], value=val), st))
+                    count += 1
+                    continue
+            if isinstance(st, ast.If):
+                st.body = visit(st.body, facts + conj(st.test))
+                st.orelse = visit(st.orelse, facts)
+            else:
+                for field in ('body', 'orelse', 'finalbody'):
+                    sub = getattr(st, field, None)
+                    if isinstance(sub, list) and sub and isinstance(sub[0], ast.stmt):
+                        inner_facts = [] if isinstance(st, (ast.FunctionDef, ast.ClassDef, ast.While, ast.For)) else facts
+                        setattr(st, field, visit(sub, inner_facts))
+                if isinstance(st, ast.Try):
+                    for h in st.handlers:
+                        h.body = visit(h.body, facts)
+            new.append(st)
+            # a statement that calls something with (or on) the measured list may change its length
+            if any(isinstance(x, ast.Call) for x in ast.walk(st)):
+                touched = {x.id for x in ast.walk(st) if isinstance(x, ast.Name)}
+                facts = [f for f in facts if not ({x.id for x in ast.walk(f) if isinstance(x, ast.Name)} & touched)]
+        return new
+    tree.body = visit(tree.body, [])
+    if count:
+        ast.fix_missing_locations(tree)
+    return count
+
+
+def unroll_record_comprehensions(tree):
+    """Normalisation: ``rows = [(a, f(a)) for a in xs if c]`` - a list of tuple
+    records built by one comprehension into a local - is read as the loop it
+    abbreviates: ``rows = []; for a in xs: if c: rows.append((a, f(a)))``."""
+    count = 0
+    for holder in ast.walk(tree):
+        for field in ('body', 'orelse', 'finalbody'):
+            block = getattr(holder, field, None)
+            if not (isinstance(block, list) and block and isinstance(block[0], ast.stmt)):
+                continue
+            new = []
+            for st in block:
+                tgt = st.targets[0] if isinstance(st, ast.Assign) and len(st.targets) == 1 else (
+                    st.target if isinstance(st, ast.AnnAssign) else None)
+                val = getattr(st, 'value', None)
+                if isinstance(tgt, ast.Name) and isinstance(val, ast.ListComp) and len(val.generators) == 1 \
+                        and not val.generators[0].is_async and isinstance(val.elt, ast.Tuple) \
+                        and not any(isinstance(n, ast.Name) and n.id == tgt.id for n in ast.walk(val)):
+                    g = val.generators[0]
+                    empty = ast.copy_location(ast.List(elts=[], ctx=ast.Load()), val)
+                    if isinstance(st, ast.Assign):
+                        new.append(ast.copy_location(ast.Assign(targets=[tgt], value=empty), st))
+                    else:
+                        new.append(ast.copy_location(ast.AnnAssign(target=tgt, annotation=st.annotation,
+                                                                   value=empty, simple=st.simple), st))
+                    inner = [ast.copy_location(ast.Expr(value=ast.Call(
+                        func=ast.Attribute(value=ast.Name(id=tgt.id, ctx=ast.Load()), attr='append', ctx=ast.Load()),
+                        args=[val.elt], keywords=[])), st)]
+                    for cond in reversed(g.ifs):
+                        inner = [ast.copy_location(ast.If(test=cond, body=inner, orelse=[]), st)]
+                    new.append(ast.copy_location(ast.For(target=g.target, iter=g.iter, body=inner, orelse=[]), st))
+                    count += 1
+                    continue
+                new.append(st)
+            setattr(holder, field, new)
+    if count:
+        ast.fix_missing_locations(tree)
+    return count
+
+
 def unroll_join_tails(tree):
     """Normalisation: ``return A + ''.join(C)`` / ``x = A + ''.join(C)`` where C
     is a comprehension (or a local bound to one by the statement just before,
@@ -1142,11 +1255,13 @@ class Module:
             # calls that became visible by unrolling
             self.inlined_helpers += inline_private_helpers(self.tree)
         self.unrolled_comprehensions = unroll_constant_comprehensions(self.tree)
+        self.unrolled_comprehensions += unroll_guarded_unpacking(self.tree)
         self.folded_unpackings = fold_target_unpacking(self.tree)
         self.split_tuple_locals = split_tuple_locals(self.tree)
         self.split_tuples = split_tuple_assignments(self.tree)
         self.sunk_callees = sink_selected_callees(self.tree)
         self.unrolled_joins = unroll_join_accumulations(self.tree) + unroll_join_tails(self.tree)
+        self.unrolled_records = unroll_record_comprehensions(self.tree)
         self.propagated_constants = propagate_module_constants(self.tree)
         self.inlined_aliases = inline_attribute_aliases(self.tree)
         self.inlined_temporaries = inline_test_temporaries(self.tree)
